@@ -151,9 +151,10 @@ def capture_names(t) -> list[str]:
 # reference matcher
 # ---------------------------------------------------------------------------
 class TailSlice:
-    """Expected capture of a trailing '*': the tuple of the remaining elements (a fresh slice)."""
+    """Expected capture of a trailing '*': the remaining elements (a fresh slice of the field value)."""
 
     def __init__(self, elems):
+        self.value = elems  # the slice as the sequence type of the field gives it (a tuple for tuples, a list for lists)
         self.elems = tuple(elems)
 
 
@@ -172,7 +173,7 @@ def ref_match(t, node, classes: dict[str, type], node_base: type):
         if k == "var":
             cv = ctx[v[1]]
             if isinstance(cv, TailSlice):
-                cv = cv.elems
+                cv = cv.value
             if is_node(cv):
                 return (cv.is_equal(value), {})
             try:
@@ -243,7 +244,7 @@ def captures_agree(got: dict, exp: dict) -> str | None:
     for k, e in exp.items():
         g = got[k]
         if isinstance(e, TailSlice):
-            if not isinstance(g, tuple) or len(g) != len(e.elems) or any(a is not b for a, b in zip(g, e.elems)):
+            if type(g) is not type(e.value) or len(g) != len(e.elems) or any(a is not b for a, b in zip(g, e.elems)):
                 return f"capture {k!r}: tail slice differs"
         elif g is not e:
             # (a computed attribute such as the `children` convenience property yields a fresh list on every access:
